@@ -397,7 +397,7 @@ def classify(msg):
 
 # ----------------------------------------------------------------------------- correspondence
 def correspondence(ctx, model_ok=True):
-    n = 300 if ctx.quick else 5000
+    n = 300 if ctx.quick else 10000
     cases = []
     corpus = os.path.join(C.VERIF, "corpus", ID)
     if os.path.isdir(corpus):
